@@ -292,6 +292,8 @@ namespace igris
                 std::move_backward(first, last - 1, last);
             }
             m_size++;
+            if (first != last)
+                igris::destructor(first);
             new (first) T(std::forward<Args>(args)...);
 
             return first;
